@@ -55,41 +55,66 @@ theorem eval_matches_dyn (sc : SCfg) (m : Meta) (l r : Node) : eval sc ctx (.mat
   funext b
   exact match_dyn sc.world a b
 
+theorem evalLoc_matches_re (sc : SCfg) (m : Meta) (l r : Node) : evalLoc sc ctx (.matches m true l r) = (do
+    let a ← evalLoc sc ctx l
+    SML.raisedAt m.loc (SM.lift (matchR sc.world a (.str (patOf r))))) := by
+  rw [evalLoc_matches]
+  simp only [if_true]
+  congr 1
+  funext a
+  congr 1
+  exact match_re sc.world _ a
+
+theorem evalLoc_matches_dyn (sc : SCfg) (m : Meta) (l r : Node) : evalLoc sc ctx (.matches m false l r) = (do
+    let a ← evalLoc sc ctx l
+    let b ← evalLoc sc ctx r
+    SML.raisedAt m.loc (SM.lift (matchR sc.world a b))) := by
+  rw [evalLoc_matches]
+  simp only [Bool.false_eq_true, if_false]
+  congr 1
+  funext a
+  congr 1
+  funext b
+  congr 1
+  exact match_dyn sc.world a b
+
 theorem sim_matches_re {m : Meta} {l r : Node} {cl : List LInstr} {kk : Nat} (hl : Sim c P ctx l cl)
-    (hk : P.consts[kk]? = some (.regexp (patOf r))) (hbl : BlameOK c P (.matches m true l r)) :
+    (hk : P.consts[kk]? = some (.regexp (patOf r))) :
     Sim c P ctx (.matches m true l r) (cl ++ [li m.loc .matchesConst kk]) := by
-  intro k st scs σ res σ' hcode hsc hev
-  have hev0 := hev
+  intro k st scs σ res σ' hcode hsc hev hB
   rw [eval_matches_re] at hev
+  rw [evalLoc_matches_re] at hB
   rcases SM.bind_cases hev with ⟨e, hle, rfl⟩ | ⟨a, σ1, hlv, hrest⟩
-  · exact hl k st scs σ _ _ hcode.left hsc hle
-  · refine Reach.runs (hl k st scs σ _ _ hcode.left hsc hlv) ?_
+  · exact hl k st scs σ _ _ hcode.left hsc hle hB.left
+  · refine Reach.runs (hl k st scs σ _ _ hcode.left hsc hlv hB.left) ?_
+    have hb := (hB.right (evalLoc_of_ok hlv)).raised hrest
     rw [SM.lift_apply] at hrest
     obtain ⟨rfl, rfl⟩ := Prod.mk.inj hrest
-    exact (Runs.matchesConst hcode.right hk (hbl.of hev0)).to_ip (by ip_arith)
+    exact (Runs.matchesConst hcode.right hk hb).to_ip (by ip_arith)
 
-theorem sim_matches_dyn {m : Meta} {l r : Node} {cl cr : List LInstr} (hl : Sim c P ctx l cl) (hr : Sim c P ctx r cr)
-    (hbl : BlameOK c P (.matches m false l r)) :
+theorem sim_matches_dyn {m : Meta} {l r : Node} {cl cr : List LInstr} (hl : Sim c P ctx l cl) (hr : Sim c P ctx r cr) :
     Sim c P ctx (.matches m false l r) (cl ++ cr ++ [li m.loc .matches_]) := by
-  intro k st scs σ res σ' hcode hsc hev
-  have hev0 := hev
+  intro k st scs σ res σ' hcode hsc hev hB
   rw [eval_matches_dyn] at hev
+  rw [evalLoc_matches_dyn] at hB
   rcases SM.bind_cases hev with ⟨e, hle, rfl⟩ | ⟨a, σ1, hlv, hrest⟩
-  · exact hl k st scs σ _ _ hcode.left.left hsc hle
-  · refine Reach.runs (hl k st scs σ _ _ hcode.left.left hsc hlv) ?_
+  · exact hl k st scs σ _ _ hcode.left.left hsc hle hB.left
+  · refine Reach.runs (hl k st scs σ _ _ hcode.left.left hsc hlv hB.left) ?_
+    have hB1 := hB.right (evalLoc_of_ok hlv)
     rcases SM.bind_cases hrest with ⟨e, hre, rfl⟩ | ⟨b, σ2, hrv, hrest2⟩
-    · exact hr _ _ scs σ1 _ _ hcode.left.right hsc hre
-    · refine Reach.runs (hr _ _ scs σ1 _ _ hcode.left.right hsc hrv) ?_
+    · exact hr _ _ scs σ1 _ _ hcode.left.right hsc hre hB1.left
+    · refine Reach.runs (hr _ _ scs σ1 _ _ hcode.left.right hsc hrv hB1.left) ?_
+      have hb := (hB1.right (evalLoc_of_ok hrv)).raised hrest2
       rw [SM.lift_apply] at hrest2
       obtain ⟨rfl, rfl⟩ := Prod.mk.inj hrest2
-      exact (Runs.matches_ (hcode.right.cast (by ip_arith)) (hbl.of hev0)).to_ip (by ip_arith)
+      exact (Runs.matches_ (hcode.right.cast (by ip_arith)) hb).to_ip (by ip_arith)
 
 /-! ### slices -/
 
-/-- code for the upper bound of a slice and what it leaves above the sliced value -/
-def BoundT (c : Cfg) (P : LProg) (loc : Loc) (ctx : Ctx) (ct : List LInstr) (ev : Val → SM Val) : Prop :=
+/-- code for the upper bound of a slice and what it leaves above the sliced value; `evL` is the located form of `ev` -/
+def BoundT (c : Cfg) (P : LProg) (ctx : Ctx) (ct : List LInstr) (ev : Val → SM Val) (evL : Val → SML Val) : Prop :=
   ∀ (k : Nat) (st : List Val) (scs : List Scope) (σ : SState) (a : Val) (r : R Val) (σ' : SState),
-    CodeAt P k ct → ScopesOK ctx scs → ev a σ = (r, σ') → RBlame P loc r →
+    CodeAt P k ct → ScopesOK ctx scs → ev a σ = (r, σ') → BAt P.blame (evL a) σ →
     Runs c P (vm k (a :: st) scs σ c.budget) (outcome r (k + lsize ct) (a :: st) scs σ' c.budget)
 
 theorem SM.bind_assoc {α β γ : Type} (m : SM α) (f : α → SM β) (g : β → SM γ) :
@@ -124,12 +149,27 @@ theorem eval_slice_nn' (sc : SCfg) (h : sc.sliceToFirst = true) (m x) :
   unfold lenOf
   rw [SM.bind_assoc]
 
-theorem boundT_some {t : Node} {ct : List LInstr} {loc : Loc} (ht : Sim c P ctx t ct) :
-    BoundT c P loc ctx ct (fun _ => eval (specOf c) ctx t) :=
-  fun k st scs σ a r σ' hc hsc hev _ => ht k (a :: st) scs σ r σ' hc hsc hev
+theorem evalLoc_slice_sn' (sc : SCfg) (h : sc.sliceToFirst = true) (m x f) :
+    evalLoc sc ctx (.slice m x (some f) none) = (do
+      let a ← evalLoc sc ctx x
+      let tv ← SML.raisedAt m.loc (lenOf a)
+      let fv ← evalLoc sc ctx f
+      SML.raisedAt m.loc (SM.lift (sliceV a fv tv))) := evalLoc_slice_sn _ _ h m x f
 
-theorem boundT_none {l : Loc} : BoundT c P l ctx [li l .len] lenOf := by
-  intro k st scs σ a r σ' hc hsc hev hb
+theorem evalLoc_slice_nn' (sc : SCfg) (h : sc.sliceToFirst = true) (m x) :
+    evalLoc sc ctx (.slice m x none none) = (do
+      let a ← evalLoc sc ctx x
+      let tv ← SML.raisedAt m.loc (lenOf a)
+      let fv ← (pure (.int .int 0) : SML Val)
+      SML.raisedAt m.loc (SM.lift (sliceV a fv tv))) := evalLoc_slice_nn _ _ h m x
+
+theorem boundT_some {t : Node} {ct : List LInstr} (ht : Sim c P ctx t ct) :
+    BoundT c P ctx ct (fun _ => eval (specOf c) ctx t) (fun _ => evalLoc (specOf c) ctx t) :=
+  fun k st scs σ a r σ' hc hsc hev hB => ht k (a :: st) scs σ r σ' hc hsc hev hB
+
+theorem boundT_none {l : Loc} : BoundT c P ctx [li l .len] lenOf (fun a => SML.raisedAt l (lenOf a)) := by
+  intro k st scs σ a r σ' hc hsc hev hB
+  have hb := hB.raised hev
   replace hev : (SM.lift (lengthV a) >>= fun n => (pure (.int .int n) : SM Val)) σ = (r, σ') := hev
   rw [SM.bind_apply, SM.lift_apply] at hev
   have hb' : RBlame P l (lengthV a) := by
@@ -140,89 +180,103 @@ theorem boundT_none {l : Loc} : BoundT c P l ctx [li l .len] lenOf := by
   | error e => rw [hl] at hev; obtain ⟨rfl, rfl⟩ := Prod.mk.inj hev; rfl
 
 /-- code for the lower bound -/
-def BoundF (c : Cfg) (P : LProg) (ctx : Ctx) (cf : List LInstr) (ev : SM Val) : Prop :=
+def BoundF (c : Cfg) (P : LProg) (ctx : Ctx) (cf : List LInstr) (ev : SM Val) (evL : SML Val) : Prop :=
   ∀ (k : Nat) (st : List Val) (scs : List Scope) (σ : SState) (r : R Val) (σ' : SState),
-    CodeAt P k cf → ScopesOK ctx scs → ev σ = (r, σ') →
+    CodeAt P k cf → ScopesOK ctx scs → ev σ = (r, σ') → BAt P.blame evL σ →
     Runs c P (vm k st scs σ c.budget) (outcome r (k + lsize cf) st scs σ' c.budget)
 
 theorem boundF_none {l : Loc} {kk : Nat} (hk : P.consts[kk]? = some (.int .int 0)) :
-    BoundF c P ctx [li l .push kk] (pure (.int .int 0)) := by
-  intro k st scs σ r σ' hc hsc hev
+    BoundF c P ctx [li l .push kk] (pure (.int .int 0)) (pure (.int .int 0)) := by
+  intro k st scs σ r σ' hc hsc hev hB
   rw [SM.pure_apply] at hev
   obtain ⟨rfl, rfl⟩ := Prod.mk.inj hev
   exact Runs.push hc hk (Reach.refl _ |>.to_ip (by ip_arith))
 
 theorem sim_slice_gen {m : Meta} {x : Node} {f t : Option Node} {cx ct cf : List LInstr}
-    {evT : Val → SM Val} {evF : SM Val} (hx : Sim c P ctx x cx) (ht : BoundT c P m.loc ctx ct evT) (hf : BoundF c P ctx cf evF)
-    (hbl : BlameOK c P (.slice m x f t))
+    {evT : Val → SM Val} {evF : SM Val} {evTL : Val → SML Val} {evFL : SML Val}
+    (hx : Sim c P ctx x cx) (ht : BoundT c P ctx ct evT evTL) (hf : BoundF c P ctx cf evF evFL)
+    (hTok : ∀ a σ v σ', evT a σ = (.ok v, σ') → evTL a σ = (.ok v, σ'))
+    (hFok : ∀ σ v σ', evF σ = (.ok v, σ') → evFL σ = (.ok v, σ'))
     (heq : eval (specOf c) ctx (.slice m x f t) = (do
       let a ← eval (specOf c) ctx x
       let tv ← evT a
       let fv ← evF
-      SM.lift (sliceV a fv tv))) :
+      SM.lift (sliceV a fv tv)))
+    (heqL : evalLoc (specOf c) ctx (.slice m x f t) = (do
+      let a ← evalLoc (specOf c) ctx x
+      let tv ← evTL a
+      let fv ← evFL
+      SML.raisedAt m.loc (SM.lift (sliceV a fv tv)))) :
     Sim c P ctx (.slice m x f t) (cx ++ ct ++ cf ++ [li m.loc .slice]) := by
-  intro k st scs σ res σ' hcode hsc hev
-  have hev0 := hev
+  intro k st scs σ res σ' hcode hsc hev hB
   rw [heq] at hev
+  rw [heqL] at hB
   rcases SM.bind_cases hev with ⟨e, hxe, rfl⟩ | ⟨a, σ1, hxv, hrest⟩
-  · exact hx k st scs σ _ _ hcode.left.left.left hsc hxe
-  · refine Reach.runs (hx k st scs σ _ _ hcode.left.left.left hsc hxv) ?_
+  · exact hx k st scs σ _ _ hcode.left.left.left hsc hxe hB.left
+  · refine Reach.runs (hx k st scs σ _ _ hcode.left.left.left hsc hxv hB.left) ?_
+    have hB1 := hB.right (evalLoc_of_ok hxv)
     rcases SM.bind_cases hrest with ⟨e, hte, rfl⟩ | ⟨tv, σ2, htv, hrest2⟩
-    · exact ht _ st scs σ1 a _ _ hcode.left.left.right hsc hte (RBlame.err (hbl _ _ _ _ hev0))
-    · refine Reach.runs (ht _ st scs σ1 a _ _ hcode.left.left.right hsc htv (RBlame.ok _)) ?_
+    · exact ht _ st scs σ1 a _ _ hcode.left.left.right hsc hte hB1.left
+    · refine Reach.runs (ht _ st scs σ1 a _ _ hcode.left.left.right hsc htv hB1.left) ?_
+      have hB2 := hB1.right (hTok _ _ _ _ htv)
       rcases SM.bind_cases hrest2 with ⟨e, hfe, rfl⟩ | ⟨fv, σ3, hfv, hrest3⟩
-      · exact hf _ _ scs σ2 _ _ (hcode.left.right.cast (by ip_arith)) hsc hfe
-      · refine Reach.runs (hf _ _ scs σ2 _ _ (hcode.left.right.cast (by ip_arith)) hsc hfv) ?_
+      · exact hf _ _ scs σ2 _ _ (hcode.left.right.cast (by ip_arith)) hsc hfe hB2.left
+      · refine Reach.runs (hf _ _ scs σ2 _ _ (hcode.left.right.cast (by ip_arith)) hsc hfv hB2.left) ?_
+        have hb := (hB2.right (hFok _ _ _ hfv)).raised hrest3
         rw [SM.lift_apply] at hrest3
         obtain ⟨rfl, rfl⟩ := Prod.mk.inj hrest3
-        exact (Runs.slice (hcode.right.cast (by ip_arith)) (hbl.of hev0)).to_ip (by ip_arith)
+        exact (Runs.slice (hcode.right.cast (by ip_arith)) hb).to_ip (by ip_arith)
 
 /-! ### conditional -/
 
 theorem sim_cond {m : Meta} {cn a b : Node} {cc ca cb : List LInstr}
-    (hc : Sim c P ctx cn cc) (ha : Sim c P ctx a ca) (hb : Sim c P ctx b cb) (hbl : BlameOK c P (.cond m cn a b)) :
+    (hc : Sim c P ctx cn cc) (ha : Sim c P ctx a ca) (hb : Sim c P ctx b cb) :
     Sim c P ctx (.cond m cn a b)
       (cc ++ [li m.loc .jumpIfFalse (1 + lsize ca + 3), li m.loc .pop] ++ ca ++
         [li m.loc .jump (1 + lsize cb), li m.loc .pop] ++ cb) := by
-  intro k st scs σ res σ' hcode hsc hev
-  have hev0 := hev
+  intro k st scs σ res σ' hcode hsc hev hB
   rw [eval_cond] at hev
+  rw [evalLoc_cond] at hB
   have hcc := hcode.left.left.left.left
   have hj := hcode.left.left.left.right
   have hca := hcode.left.left.right
   have hj2 := hcode.left.right
   have hcb := hcode.right
   rcases SM.bind_cases hev with ⟨e, hce, rfl⟩ | ⟨v, σ1, hcv, hrest⟩
-  · exact hc k st scs σ _ _ hcc hsc hce
-  · refine Reach.runs (hc k st scs σ _ _ hcc hsc hcv) ?_
+  · exact hc k st scs σ _ _ hcc hsc hce hB.left
+  · refine Reach.runs (hc k st scs σ _ _ hcc hsc hcv hB.left) ?_
+    have hB1 := hB.right (evalLoc_of_ok hcv)
     by_cases hbv : ∃ bb, v = .bool bb
     · obtain ⟨bb, rfl⟩ := hbv
+      have hB2 := hB1.right (a := bb) (σ1 := σ1) (raisedAt_ok (by rw [asBool_bool, SM.pure_apply]))
       rw [asBool_bool, SM.bind_apply, SM.pure_apply] at hrest
       cases bb
-      · simp only [Bool.false_eq_true, if_false] at hrest
+      · simp only [Bool.false_eq_true, if_false] at hrest hB2
         refine Runs.jumpIfFalse_false hj ?_
         refine Runs.pop (hj2.tail3.cast (by ip_arith)) ?_
-        exact ((hb _ st scs σ1 _ _ (hcb.cast (by ip_arith)) hsc hrest).to_ip (by ip_arith))
-      · simp only [if_true] at hrest
+        exact ((hb _ st scs σ1 _ _ (hcb.cast (by ip_arith)) hsc hrest hB2).to_ip (by ip_arith))
+      · simp only [if_true] at hrest hB2
         refine Runs.jumpIfFalse_true hj (Runs.pop hj.tail3 ?_)
-        refine Runs.andThen (ha _ st scs σ1 _ _ (hca.cast (by ip_arith)) hsc hrest) ?_ ?_
+        refine Runs.andThen (ha _ st scs σ1 _ _ (hca.cast (by ip_arith)) hsc hrest hB2) ?_ ?_
         · intro va hva
           subst hva
           exact Runs.jump (hj2.cast (by ip_arith)) (Reach.refl _ |>.to_ip (by ip_arith))
         · intro e he; subst he; rfl
     · have hnb : ∀ bb, v ≠ .bool bb := fun bb h => hbv ⟨bb, h⟩
+      have hbt := hB1.left.raised (r := .error .type_) (σ' := σ1) (by rw [asBool_other hnb, SM.fail_apply])
       rw [asBool_other hnb, SM.bind_apply, SM.fail_apply] at hrest
       obtain ⟨rfl, rfl⟩ := Prod.mk.inj hrest
-      exact Runs.jumpIf_err (.inr rfl) hj hnb (hbl _ _ _ _ hev0)
+      exact Runs.jumpIf_err (.inr rfl) hj hnb (hbt _ rfl)
 
 /-! ### pointer -/
 
 theorem sim_pointer {m : Meta} {car ci : Nat} (hcar : P.consts[car]? = some (.str "array"))
-    (hci : P.consts[ci]? = some (.str "i")) (hbl : BlameOK c P (.pointer m)) :
+    (hci : P.consts[ci]? = some (.str "i")) :
     Sim c P ctx (.pointer m) [li m.loc .load car, li m.loc .load ci, li m.loc .index] := by
-  intro k st scs σ res σ' hcode hsc hev
-  have hev0 := hev
+  intro k st scs σ res σ' hcode hsc hev hB
   rw [eval_pointer] at hev
+  rw [evalLoc_pointer] at hB
+  have hb := hB.raised hev
   cases ctx with
   | nil =>
     simp only [ScopesOK] at hsc
@@ -230,7 +284,7 @@ theorem sim_pointer {m : Meta} {car ci : Nat} (hcar : P.consts[car]? = some (.st
     simp only [SM.fail_apply] at hev
     obtain ⟨rfl, rfl⟩ := Prod.mk.inj hev
     refine Runs.load_nil hcode hcar (Runs.load_nil hcode.tail3 hci ?_)
-    exact (Runs.index hcode.tail3.tail3 (x := .nil) (y := .nil) (RBlame.err (hbl _ _ _ _ hev0)))
+    exact (Runs.index hcode.tail3.tail3 (x := .nil) (y := .nil) (RBlame.err (hb _ rfl)))
   | cons hd tl =>
     obtain ⟨coll, i⟩ := hd
     simp only [ScopesOK] at hsc
@@ -239,6 +293,6 @@ theorem sim_pointer {m : Meta} {car ci : Nat} (hcar : P.consts[car]? = some (.st
     obtain ⟨rfl, rfl⟩ := Prod.mk.inj hev
     refine Runs.load hcode hcar (Runs.load hcode.tail3 hci ?_)
     rw [ha, hi]
-    exact (Runs.index hcode.tail3.tail3 (hbl.of hev0)).to_ip (by ip_arith)
+    exact (Runs.index hcode.tail3.tail3 hb).to_ip (by ip_arith)
 
 end ExprModel.Refine
